@@ -3,6 +3,7 @@ import FqModel.Bits
 import FqModel.Query
 import FqModel.C11Print
 import FqModel.C11Full
+import FqModel.C11Dir
 /-!
   driver for C11.  Case lines (harness/cmd/c11/main.go), the observation is one JSON value:
 
@@ -401,24 +402,68 @@ end
 /-- beq of the two token types (derived DecidableEq) -/
 def sameToks (a b : List Tok) : Bool := decide (a = b)
 
+def kwText : Kw → String
+  | .null => "null" | .true_ => "true" | .false_ => "false" | .if_ => "if" | .then_ => "then" | .elif_ => "elif"
+  | .else_ => "else" | .end_ => "end" | .try_ => "try" | .catch_ => "catch" | .reduce => "reduce" | .foreach => "foreach"
+  | .as_ => "as" | .label => "label" | .break_ => "break" | .def_ => "def" | .import_ => "import" | .include => "include"
+  | .module => "module"
+
+open FqModel.C11.Dir in
+mutual
+  partial def constJ : C → JV
+    | .num s => o [("number", .str s)]
+    | .str s => if s == "" then .obj [] else o [("str", .str s)]
+    | .lit .null => o [("null", .bool true)]
+    | .lit .true_ => o [("true", .bool true)]
+    | .lit _ => o [("false", .bool true)]
+    | .arr [] => o [("array", .obj [])]
+    | .arr xs => o [("array", o [("elems", .arr (xs.map constJ))])]
+    | .obj kvs => o [("object", constObjJ kvs)]
+  partial def constObjJ (kvs : List (Tok × C)) : JV :=
+    if kvs.isEmpty then .obj [] else
+    o [("keyvals", .arr (kvs.map fun kv =>
+      match kv.1 with
+      | .str s => o ((if s == "" then [] else [("key_string", JV.str s)]) ++ [("val", constJ kv.2)])
+      | .ident s => o [("key", .str s), ("val", constJ kv.2)]
+      | .kw k => o [("key", .str (kwText k)), ("val", constJ kv.2)]
+      | .op .and => o [("key", .str "and"), ("val", constJ kv.2)]
+      | _ => o [("key", .str "or"), ("val", constJ kv.2)]))]
+end
+
+open FqModel.C11.Dir in
+def metaJ : Option C → List (String × JV)
+  | some (.obj kvs) => [("meta", constObjJ kvs)]
+  | _ => []
+
+open FqModel.C11.Dir in
+def impJ (i : Imp) : JV :=
+  let aliasText := match i.alias with | .ident s => s | .var s => s | _ => ""
+  if i.isImport then o ((if i.path == "" then [] else [("import_path", JV.str i.path)]) ++ [("import_alias", .str aliasText)] ++ metaJ i.dmeta)
+  else o ((if i.path == "" then [] else [("include_path", JV.str i.path)]) ++ metaJ i.dmeta)
+
 def stepPP (words : List String) (obs : JV) : String :=
   match words.mapM tokOfText with
   | none => "BADOP pp-token"
   | some ts =>
-    match parse ts with
+    match FqModel.C11.Dir.parseProg ts with
     | none =>
       match obs with
       | .str "reject" => "OK"
       | _ => "DIVERGE model=reject"
-    | some e =>
+    | some pr =>
+      let e := pr.body
       -- the printed form of what the model parsed is the token line again, and the tree is well-formed
-      if !(sameToks (print e) ts) then "BADOP model-print-of-parse-differs"
-      else if !(wf e) then "BADOP model-parse-not-wellformed"
+      if !(sameToks (FqModel.C11.Dir.printProg pr) ts) then "BADOP model-print-of-parse-differs"
+      else if !(FqModel.C11.Dir.wfProg pr) then "BADOP model-parse-not-wellformed"
       else if parse (print e) matches none then "BADOP model-reparse-fails"
       else
-        match queryJ e words with
+        let bodyWords := words.drop (words.length - plen e)
+        match queryJ e bodyWords with
         | none => "BADOP model-conversion-failed"
-        | some m => if m == obs then "OK" else s!"DIVERGE model={clipStr m.encode 1500}"
+        | some m =>
+          let m := match metaJ pr.pmeta with | [(k, v)] => m.set k v | _ => m
+          let m := if pr.imports.isEmpty then m else m.set "imports" (.arr (pr.imports.map impJ))
+          if m == obs then "OK" else s!"DIVERGE model={clipStr m.encode 1500}"
 
 end PP
 
